@@ -19,12 +19,15 @@ SPEC = dict(
     contracts=['annot', 'digest'],
     targets={'annot': ['peptacular.proforma.proforma_parser:ProFormaAnnotation.slice', 'peptacular.proforma.proforma_parser:ProFormaAnnotation.slice@anycut',
                        'peptacular.proforma.proforma_parser:ProFormaAnnotation.has_mods'],
-             'digest': ['peptacular.digestion:_return_digested_sequences@' + t for t in ('span', 'annotation', 'str', 'annotation-span', 'str-span', 'unknown')] +
-                       []},
+             'digest': ['peptacular.digestion:_return_digested_sequences@' + t for t in ('span', 'annotation', 'str', 'annotation-span', 'str-span', 'unknown', 'spanbag')] +
+                       ['peptacular.digestion:' + g + '@spanbag' for g in ('get_left_semi_enzymatic_sequences', 'get_right_semi_enzymatic_sequences',
+                                                                           'get_non_enzymatic_sequences', 'get_semi_enzymatic_sequences')]},
     bounded=[dict(name='C07-bounded', script='bounded/C07.py')],
     replay_finder='bounded/C07.py',
     explanation='slice#ensures re-proved in this check (it carries the first sentence of the property) + bounded composition check',
-    proved_clauses=['slice(s,e) wherever the cuts fall (also strictly inside an ambiguity interval, as a digest of such a protein does): the peptide is '
+    proved_clauses=['the four sequence generators (span return type) return exactly the spans their builder defines for the whole sequence '
+                    '(builders proved under C06): get_left_/right_/non_enzymatic_sequences, get_semi_enzymatic_sequences = left then right',
+                    'slice(s,e) wherever the cuts fall (also strictly inside an ambiguity interval, as a digest of such a protein does): the peptide is '
                     'WELL FORMED (every interval non-empty and inside the new residues, each a clipped interval of the protein with its own '
                     'modifications), with the residues / residue / terminal / global modifications of the range (slice~anycut)',
                     'every return type of the digest dispatcher is, per span and in order, the slice of the protein at that span (or its text, or the span)',
